@@ -24,3 +24,9 @@ Proof.
   destruct (nth_in_or_default k lock_table (""%string, [])) as [H|H]; [exact (G _ H)|now rewrite H].
 Qed.
 Print Assumptions generated_race_free.
+
+(* the request paths translated on this run have the step structure model/Linear.v assumes
+   (C12_linearisation): one read-locked section holding every read of the service list and
+   of route slices, the service list first *)
+Theorem generated_selection_is_one_section : selection_shapes_ok lock_table = true.
+Proof. vm_compute. reflexivity. Qed.
